@@ -195,6 +195,16 @@ theorem facts_savedValueWrites :
        ("userCursorStyle", "handleSequence", "vx.userCursorStyle = CursorStyle(cursorStyle - 0x30)")] := by
   decide
 
+/-- **Start-up skeleton.** `New` calls `openTty`, `sendQueries`, `enterAltScreen`, `enableModes` in this
+    order (the model's `startupS` folds over this regenerated list), `openTty` installs a new writer,
+    and `newWriter` creates its buffer with 8192 bytes already in it (the `fresh` flag of the writer
+    model: the first group after start-up/Resume has no prologue). -/
+theorem facts_startup_skeleton :
+    Gen.Modes.newCalls = ["openTty", "sendQueries", "enterAltScreen", "enableModes"] ∧
+    Gen.Modes.openTtyInstallsWriter = true ∧
+    Gen.Modes.newWriterBuf = "bytes.NewBuffer(make([]byte, 8192))" := by
+  decide
+
 /-! ### The direct token mappings agree with the lexer -/
 
 /-- The printed forms of DECSET/DECRST lex to exactly the tokens the lifecycle model maps them to
